@@ -184,6 +184,34 @@ def gen_phys(relpath):
     return os.path.join(GENROOT, *parts[1:])
 
 
+_DEPS_OK = set()
+_DEPS_LOCK = __import__('threading').Lock()
+
+
+def ensure_deps(vtext):
+    """Build the compiled theories a generated file imports (`From Verif.X Require [Import] A B.`)
+    when they are not on disk: a module that only generated case files use (e.g. C02/Model.v, the
+    comparison functions) is not a dependency of Props.v, so after a fresh restore nothing else
+    would have built it."""
+    want = []
+    for m in re.finditer(r'From\s+Verif\.([A-Za-z0-9_.]+)\s+Require\s+(?:Import\s+|Export\s+)?([^.]+)\.', vtext):
+        pre = m.group(1)
+        if pre.split('.')[0] == 'gen':
+            continue
+        for name in m.group(2).split():
+            want.append(os.path.join(*pre.split('.'), name + '.vo'))
+    with _DEPS_LOCK:
+        todo = [t for t in dict.fromkeys(want) if t not in _DEPS_OK
+                and os.path.exists(os.path.join(COQ, t[:-1]))]
+        missing = [t for t in todo if not os.path.exists(os.path.join(COQ, t))]
+        if missing:
+            ok, out, cmd, dt = coq_make(missing)
+            log('[deps] built %s (%s, %.1fs)' % (' '.join(missing), 'ok' if ok else 'FAILED', dt))
+            if not ok:
+                log(out[-1500:])
+        _DEPS_OK.update(todo)
+
+
 def coqc_file(relpath, timeout=900):
     """Compile one file under coq/ (used for Props.v and generated files);
     returns (ok, output)."""
@@ -483,6 +511,7 @@ class Ctx:
         rel = os.path.join(self.genrel, name + '.v')
         with open(gen_phys(rel), 'w') as f:
             f.write(vtext)
+        ensure_deps(vtext)
         ok, out = coqc_file(rel, timeout=timeout)
         self.checker_cmds.append('cd coq && coqc -R . Verif gen/<run>/%s.v' % name)
         self.obligations += 1
@@ -496,6 +525,7 @@ class Ctx:
         rel = os.path.join(self.genrel, name + '.v')
         with open(gen_phys(rel), 'w') as f:
             f.write(vtext)
+        ensure_deps(vtext)
         return coqc_file(rel, timeout=timeout)
 
     def coq_eval_many(self, files, timeout=900):
